@@ -412,7 +412,8 @@ MANIFEST_TEXT = {
         "note": "Partial: asyncio's Event/timer/task semantics are modelled (DESIGN.md section 5), tied by running the real coroutine on tools/vloop.py; independence of concurrent waits is "
                 "observed (each wait is compared with its own model run; the getProperties sent by several polling waits must be the merge of their own schedules), not proved. "
                 "The four conditions of waitforevent (callback release, polling-loop guard, timeout guard, arming of the timeout task) are translated from the source on every run and "
-                "wait_deliver_from_source / wait_poll_from_source / wait_timeout_from_source (Properties/Dec/Wait.lean) prove that the three parts of the model are the source's skeletons with those conditions plugged in. "
+                "wait_deliver_from_source / wait_poll_from_source / wait_timeout_from_source (Properties/Dec/Wait.lean) prove that the three parts of the model are the source's skeletons with those conditions plugged in; C17_from_source (Properties/C17b.lean): the instant-by-instant run assembled from "
+                "the source's own four conditions satisfies the declarative specification for every configuration, timing and horizon. "
                 "Waits are run both after an application callback was registered and as the client's very first registrations.",
         "technique": "Lean 4 invariant over instants (operational model = declarative spec) + virtual-clock correspondence",
     },
